@@ -66,6 +66,10 @@ func paramFor(att *expr.AttributeExpr, name, in string, required bool, rand *exp
 		Schema:          newSchemafier(rand).schemafy(att),
 		Extensions:      openapi.ExtensionsFromExpr(att.Meta),
 	}
+	if in == "query" && expr.IsMap(att.Type) {
+		// a map travels as name[key]=value
+		param.Style = "deepObject"
+	}
 	initExamples(param, att, rand)
 	return param
 }
